@@ -41,6 +41,11 @@ GRID.append(("normal", (-2, 9)))
 for lohi in ((0.0, 1.0), (-2.0, -0.5), (-1.0, 3.0), (5.0, 5.5), (-1e-3, 1e-3), (-3.0, 0.0), (-3, 0), (0, 2), (0.0, 0.25), (-0.5, 0)):
     GRID.append(("uniform", lohi))
 GRID.append(("uniform", ()))
+for lohi in ((0.0, 1.6e-19), (-1e-18, 1e-18), (1e-300, 3e-300), (2e-27, 5e-27), (1.0, 1.0 + 1e-12), (-1e9, 3e9)):
+    GRID.append(("uniform", lohi))
+NARROW = [("uniform", ("int8", -100, 100)), ("uniform", ("int16", -20000, 30000)), ("uniform", ("float16", -40000.0, 50000.0)),
+          ("uniform", ("uint8", 10, 250)), ("uniform", ("float32", -2.5, 7.25)), ("normal", ("int8", -100, 100)), ("normal", ("float32", 2.5, 0.25)),
+          ("laplace", ("int16", -300, 20)), ("laplace", ("float16", 0.5, 2.0)), ("uniform", ("mixed", -5, 200))]
 for mean in (-1.0, 0.0, 4.0):
     for scale in (0.1, 1.0, 5.0):
         GRID.append(("laplace", (mean, scale)))
@@ -51,7 +56,19 @@ GRID.append(("zero", ()))
 GRID.append(("null", ()))
 
 
+def _narrow_params(spec):
+    dt, a, b = spec
+    if dt == "mixed":
+        return (a, np.uint8(b)), (float(a), float(b))
+    t = getattr(np, dt)
+    return (t(a), t(b)), (float(t(a)), float(t(b)))
+
+
 def gen(tier, seed, shard, nshards):
+    for k, (kind, spec) in enumerate(NARROW):
+        if k % nshards == shard:
+            for s in SEEDS[tier][:3]:
+                yield "narrow-scalars", {"kind": kind, "spec": list(spec), "np_seed": int((s + seed * 7919) % (2**32))}
     # the factories called one after the other with EQUAL parameters in one process, and the factories used inside an ANM
     if shard == 0:
         for params in ((1.0, 4.0), (), (0.0, 2.0), (-1.0, 0.5)):
@@ -83,6 +100,29 @@ def _law(kind, params):
 def judge(family, case, rec):
     import sempler.noise as noise
     import sempler.functions as functions
+    if family == "narrow-scalars":
+        # parameters given as narrow numpy scalars mean the same numbers as python floats
+        kind = case["kind"]
+        (pa_, pb_), (fa, fb) = _narrow_params(tuple(case["spec"]))
+        rec.case(family, case, True)
+        nsmall = 50000
+        try:
+            f = getattr(noise, kind)(pa_, pb_)
+            np.random.seed(case["np_seed"])
+            x = np.asarray(f(nsmall), dtype=float)
+        except Exception as e:
+            rec.exception_violation("C20:%s-narrow-scalar-exception" % kind, family, case, "noise.%s(%r, %r) raised %s" % (kind, pa_, pb_, type(e).__name__), e)
+            return
+        cdf, mu, var, kurt, (lo, hi) = _law(kind, (fa, fb))
+        rec.count("narrow-scalars:" + kind)
+        if x.shape != (nsmall,) or not np.isfinite(x).all():
+            rec.violation("C20:%s-narrow-scalar-nonfinite" % kind, family, case, "noise.%s(%r, %r) returns non-finite draws / wrong shape" % (kind, pa_, pb_))
+            return
+        ks, eps = S.ks_distance(x, cdf), S.dkw_eps(nsmall)
+        if ks > eps or (kind == "uniform" and ((x < lo).any() or (x >= hi).any())):
+            rec.violation("C20:%s-law-with-narrow-scalar-parameters" % kind, family, case,
+                          "noise.%s(%r, %r): empirical CDF deviates by %.3f (band %.3f); min %.4g max %.4g mean %.4g" % (kind, pa_, pb_, ks, eps, x.min(), x.max(), x.mean()))
+        return
     if family == "same-parameters":
         params = tuple(case["params"])
         rec.case(family, case, True)
@@ -197,7 +237,10 @@ def judge(family, case, rec):
     else:
         rec.count("repro:unseeded-differ")
     # support
-    if kind == "uniform" and ((x < lo).any() or (x >= hi).any()):
+    # [lo, hi): draws equal to hi are tolerated only where the interval is so narrow relative to its magnitude that
+    # lo + (hi-lo)*u cannot avoid rounding onto hi (numpy documents this; fewer than 2^20 doubles in the interval)
+    coarse = (hi - lo) < 2.0 ** 20 * math.ulp(max(abs(lo), abs(hi)))
+    if kind == "uniform" and ((x < lo).any() or (x > hi).any() or (not coarse and (x >= hi).any())):
         rec.violation("C20:uniform-support", family, case, "draws outside [%r, %r): min %r max %r" % (lo, hi, float(x.min()), float(x.max())))
     # i.i.d. draws of a continuous law do not repeat values (a handful of coincidences among 53-bit doubles is
     # possible at n = 1e6: expected ~1e-4; ten or more is not)
